@@ -48,7 +48,8 @@ def run(tier, seed):
                 tv_results.append((P, alg.trace_validate(pool, scratch, P, insts, f'p{P}')))
             nontrivial = 0
             for P, (cases, verdicts, summaries, problems) in tv_results:
-                rep.machinery += problems
+                for pr in problems:
+                    rep.problem(pr, dict(P=P), clause='alg.unexpected_library_error')
                 for s in summaries:
                     rep.states += s['distinct']
                     rep.transitions += s['generated']
@@ -76,7 +77,7 @@ def run(tier, seed):
                         nontrivial += 1
                     for d in diffs[:1]:
                         if d.startswith('harness exception'):
-                            rep.machinery.append(d)
+                            rep.problem(d, dict(P=P, model=v), clause='replay.unexpected_library_error')
                         else:
                             rep.violation('replay.' + d, dict(kind='algebra-replay', P=P, diffs=diffs, model=v, real=real))
                 rep.cov.setdefault('gen', []).append(dict(P=P, instances=len(ex)))
